@@ -11,4 +11,11 @@ Theorem C13_source_computes_the_model : forall start black a,
     (run_fn fn_calcEndtime [start; ga_bleft a; ga_binc a; ga_wleft a; ga_winc a; ga_mtg a] [("isBlackTurn"%string, b2z black)])
   = millis_for_move (negb black) a.
 Proof. exact calcEndtime_translated. Qed.
+(* the helpers min and max that calcEndtime calls: their source text means the built-in the semantics gives the calls *)
+Theorem C13_source_min : forall a b, run_fn fn_min [a; b] [] = do v <- call "min" [a; b]; Ok (Returned v).
+Proof. exact min_translated. Qed.
+Theorem C13_source_max : forall a b, run_fn fn_max [a; b] [] = do v <- call "max" [a; b]; Ok (Returned v).
+Proof. exact max_translated. Qed.
 Print Assumptions C13_source_computes_the_model.
+Print Assumptions C13_source_min.
+Print Assumptions C13_source_max.
